@@ -1,5 +1,7 @@
 /- C07: decoding consumes exactly one message's bytes; back-to-back messages stream. -/
-import FinProto.Obl.Side
+import FinProto.Obl.SKeys
+import FinProto.Obl.SMirror
+import FinProto.Obl.SWidths
 import FinProto.Props.RoundTrip
 namespace FinProto.Obl
 open FinProto
